@@ -26,6 +26,10 @@ def stream(family, tier):
                 for p in decs:
                     yield p
             k += 1
+    elif family == "F1.2q":  # F1.2 without evidence decorations
+        for cl, heads in G.f1_programs(2):
+            yield next(iter(G.decorate(cl, heads, k=k)))
+            k += 1
     elif family == "F1.3s":
         for cl, heads in G.f1_programs(3, bodies="single"):
             decs = list(G.decorate(cl, heads, k=k))
